@@ -176,4 +176,10 @@ def suite_raw(ctx):
     return s
 
 
-SUITES = [suite_hist, suite_raw]
+def suite_callw(ctx):
+    """whole client calls of every service family against the model's callWith (udsdrv callw): the correspondence the call-level theorems rest on"""
+    from .. import callw
+    return callw.suite_callw(ctx, 'C09')
+
+
+SUITES = [suite_hist, suite_raw, suite_callw]
